@@ -1,4 +1,4 @@
-"""Mechanically generated spec corpus: every ordered pair (and every single) of 40 instruction templates in seven
+"""Mechanically generated spec corpus: every ordered pair (and every single) of 42 instruction templates in seven
 contexts (top level, inside <chunked>, inside a <case>, inside a <case> inside <chunked>, after a <chunked>,
 and `byte; <chunked>A</chunked>; B`: raw data ahead of a break-less chunked section with a tail; and `<chunked>A<break/>B</chunked>`).
 
@@ -61,6 +61,10 @@ TEMPLATES = [
     ("switchenum", '<field name="{p}r" type="ItemKind"/><switch field="{p}r"><case value="Weapon"><chunked><field name="n" type="string"/>'
                    '<break/></chunked></case><case value="Armor"/></switch>', ""),
     ("chunk", '<chunked><field name="{p}cs" type="string"/><break/><field name="{p}cc" type="char"/></chunked>', ""),
+    ("switchopt", '<field name="{p}so" type="char"/><switch field="{p}so"><case value="1"><field name="x" type="char" optional="true"/></case>'
+                  '<case value="2"><field name="y" type="short"/></case></switch>', "E"),
+    ("optswitch", '<field name="{p}os" type="char"/><field name="{p}ox" type="char" optional="true"/><switch field="{p}os"><case value="1">'
+                  '<field name="x" type="char" optional="true"/></case></switch>', "E"),
 ]
 CONTEXTS = ("T", "K", "S", "Q", "A", "Y", "B")     # top, chunKed, caSe, case in chunk (Q), After a chunk, Y: byte; <chunked>A</chunked>; B
 _made = []
